@@ -973,9 +973,11 @@ class Explorer:
         self.solver_s = 0.0
         self.inconclusive = 0
 
-    def run(self, fn):
+    def run(self, fn, prefix=()):
+        """explore all feasible paths (below the forced decision prefix, if given)"""
         import time
-        stack = [[]]
+        stack = [list(prefix)]
+        self.forced = len(prefix)
         results = []
         while stack:
             if len(results) >= self.max_paths:
@@ -1020,6 +1022,10 @@ class Explorer:
             return False
         if self.pos < len(self.decisions):
             d = self.decisions[self.pos]
+            if self.pos < getattr(self, "forced", 0):
+                # a forced (not yet validated) decision: drop the path if it is infeasible
+                if self._check(cond if d else z3.Not(cond)) == z3.unsat:
+                    raise PathAbort()
         else:
             rt = self._check(cond)
             rf = self._check(z3.Not(cond))
@@ -1105,7 +1111,13 @@ class Path:
         self.decisions = decisions
 
 
-def run_paths(fn, pre=(), **kw):
+def run_paths(fn, pre=(), prefix=(), **kw):
     ex = Explorer(pre, **kw)
-    res = ex.run(fn)
+    res = ex.run(fn, prefix)
     return res, ex
+
+
+def prefixes(bits):
+    """all forced decision prefixes of the given length (used to split one exploration over processes)"""
+    import itertools
+    return [list(p) for p in itertools.product([True, False], repeat=bits)]
